@@ -196,14 +196,19 @@ package ratelimitmw
 //@ func (*Middleware).Wrap$1
 //@   property C10 C03 C05
 //@   requires MW(mw) && mw.logger != nil && next != nil && rw != nil && req != nil && len(req.Question) >= 1 && ecsOptsNonNil(req)
-//@   atcall newRequestInfo assert a-malformed-subnet-option-goes-no-further: !ecsBad
+//@   atcall serveWithRatelimiting assert a-malformed-subnet-option-goes-no-further: !ecsBad
 //@   atcall isBlockedByAccess assert access-check-sees-the-clients-location: ri.Location == loc && ri.ECS == ecs
-//@   atcall processLocationErr assert only-a-malformed-subnet-option-ends-here: errAs(err, ptrtag(dnsmsg.BadECSError))
+//@   atcall processLocationErr assert only-a-malformed-subnet-option-ends-here: errAs(locErr, ptrtag(dnsmsg.BadECSError))
 //@   modifies heap, rlDrop, rlAllow, rlErr, rlCounted, prlResult, prlCounted, chas, cval, rk, rlog, served, servedReq, servedRW, servedErr,
 //@            writes, wroteReq, wroteResp, wroteId, wroteRcode, wroteNQ, wroteQ, truncSize, rlStage, accessChecks, lastAccessBlocked, ecsBad, ecsDataErrs, lastFound
 //@   ensures accessChecks <= old(accessChecks) + 1 && rlStage <= old(rlStage) + 1
 //@   ensures access-blocked-dropped-silently: accessChecks == old(accessChecks) + 1 && lastAccessBlocked ==> err == nil &&
 //@             rlStage == old(rlStage) && (forall w dnsserver.ResponseWriter :: writes[w] == old(writes[w])) &&
 //@             (forall h dnsserver.Handler :: served[h] == old(served[h]))
-//@   ensures not-blocked-processed-normally: accessChecks == old(accessChecks) + 1 && !lastAccessBlocked ==> rlStage == old(rlStage) + 1
+//@   ensures not-blocked-processed-normally: accessChecks == old(accessChecks) + 1 && !lastAccessBlocked && !ecsBad ==> rlStage == old(rlStage) + 1
+//@   ensures not-blocked-and-malformed-gets-formerr: accessChecks == old(accessChecks) + 1 && !lastAccessBlocked && ecsBad ==> rlStage == old(rlStage) && writes[rw] == old(writes[rw]) + 1 && wroteRcode[rw] == 1
 //@   ensures later-stages-only-after-access-check: rlStage == old(rlStage) + 1 ==> accessChecks == old(accessChecks) + 1 && !lastAccessBlocked
+// From the property statement: a rejected request receives no response AT ALL -
+// so whatever is written (also the FORMERR for a malformed subnet option) is
+// written only after the access settings have let the request through.
+//@   ensures no-response-before-the-access-decision: (exists w dnsserver.ResponseWriter :: writes[w] != old(writes[w])) ==> accessChecks == old(accessChecks) + 1 && !lastAccessBlocked
